@@ -385,6 +385,41 @@ def filter (r : Rules) (m : Method) (x : Bytes) : Bytes :=
   | none => x
   | some out => out
 
+/-! ### with a declared encoding (`rules::encoding()` non-empty, ASCII-compatible)
+
+`encoding::valid` / `encoding::validate_or_filter` are the subject of property C14; here they are
+parameters.  (Encodings that are not ASCII-compatible go through iconv/ICU and are not modelled.) -/
+
+structure Enc where
+  /-- `encoding::valid(enc, begin, end, count)` -/
+  valid : Bytes → Bool
+  /-- the text `encoding::validate_or_filter(enc, begin, end, out, repl_ch)` leaves in `out` when it returns false -/
+  prefilter : Bytes → Bytes
+
+/-- `validate` -/
+def validateE (E : Option Enc) (r : Rules) (x : Bytes) : Bool :=
+  match E with
+  | none => validate r x
+  | some e => e.valid x && validate r x
+
+/-- `validate_and_filter_if_invalid`: badly encoded input is replaced by the pre-filtered text, `valid` is already
+false, so the output is always written -/
+def validateAndFilterE (E : Option Enc) (r : Rules) (m : Method) (x : Bytes) : Option Bytes :=
+  match E with
+  | none => validateAndFilter r m x
+  | some e => if e.valid x then validateAndFilter r m x else some (render m (analyse r (e.prefilter x)).1)
+
+def filterE (E : Option Enc) (r : Rules) (m : Method) (x : Bytes) : Bytes :=
+  match validateAndFilterE E r m x with
+  | none => x
+  | some out => out
+
+/-- single-byte charsets: `tester` accepts a text iff it accepts every byte;
+`validate_or_filter_single_byte_charset` keeps the accepted bytes and puts `repl` (if not NUL) for the others -/
+def byteEnc (ok : UInt8 → Bool) (repl : UInt8) : Enc where
+  valid := fun x => x.all ok
+  prefilter := fun x => x.flatMap fun c => if ok c then [c] else if repl = 0 then [] else [repl]
+
 /-! ### concrete rule sets (what the `add_*` calls of `rules` build) -/
 
 /-- `integer_property_functor` -/
